@@ -140,17 +140,35 @@ func genStyleIDs(r *rng) []string {
 	n := r.rangeI(1, 9)
 	ids := []string{}
 	for i := 0; i < n; i++ {
-		ids = append(ids, fmt.Sprintf("s%d", i))
+		// some ids differ from another id of the case only in letter case: ids are exact strings
+		switch {
+		case i > 0 && r.chance(20):
+			ids = append(ids, strings.ToUpper(ids[r.intn(len(ids))]))
+		case r.chance(8):
+			ids = append(ids, []string{"normal", "NORMAL", "heading1", "Ghost"}[r.intn(4)])
+		default:
+			ids = append(ids, fmt.Sprintf("s%d", i))
+		}
 	}
 	return ids
 }
 
 // independent reference: the setting of the style itself, else of the nearest ancestor that has one
+// exactStyle: the registered style with exactly this id (from the listing, not from the lookup under test)
+func exactStyle(sm *style.StyleManager, id string) *style.Style {
+	for _, s := range sm.GetAllStyles() {
+		if s.StyleID == id {
+			return s
+		}
+	}
+	return nil
+}
+
 func nearestRef(sm *style.StyleManager, id string, run bool, field string) interface{} {
 	visited := map[string]bool{}
 	cur := id
 	for {
-		st := sm.GetStyle(cur)
+		st := exactStyle(sm, cur)
 		if st == nil || visited[cur] {
 			return nil
 		}
@@ -263,7 +281,7 @@ func runStyleCase(r *rng) (coq string, ops []styleOp, fail *OracleFailure, nQuer
 			unchanged := before == after
 			if res == nil {
 				steps = append(steps, fmt.Sprintf("SQuery (mkQ %d%%N false None None None %s)", styleIDNum(w, id), cBool(unchanged)))
-				if fail == nil && w.sm.GetStyle(id) != nil {
+				if fail == nil && exactStyle(w.sm, id) != nil {
 					fail = &OracleFailure{Clause: "resolve_defined", Detail: fmt.Sprintf("op %d: style %s is registered but resolves to nil", i, id)}
 				}
 				continue
